@@ -38,6 +38,7 @@ type (
 		Forall bool
 		Vars   []string
 		Sorts  []string
+		Pats   [][]Expr // optional triggers: forall i {t1, t2} {t3} :: body  (alternatives of multi-patterns)
 		Body   Expr
 	}
 )
@@ -87,7 +88,7 @@ func lexSpec(src string) ([]tok, error) {
 			out = append(out, tok{"str", s})
 			i = j + 1
 		default:
-			for _, op := range []string{"<==>", "==>", "...", "::", "==", "!=", "<=", ">=", "&&", "||", "(", ")", "[", "]", ",", ".", "!", "<", ">", "+", "-", "*", "/", "%", ":", "=", "&"} {
+			for _, op := range []string{"<==>", "==>", "...", "::", "==", "!=", "<=", ">=", "&&", "||", "(", ")", "[", "]", "{", "}", ",", ".", "!", "<", ">", "+", "-", "*", "/", "%", ":", "=", "&"} {
 				if strings.HasPrefix(src[i:], op) {
 					out = append(out, tok{"op", op})
 					i += len(op)
@@ -159,6 +160,26 @@ func (ps *specParser) expr() (Expr, error) {
 				continue
 			}
 			break
+		}
+		for ps.isOp("{") {
+			ps.p++
+			var pat []Expr
+			for {
+				t, err := ps.expr()
+				if err != nil {
+					return nil, err
+				}
+				pat = append(pat, t)
+				if ps.isOp(",") {
+					ps.p++
+					continue
+				}
+				break
+			}
+			if err := ps.expect("}"); err != nil {
+				return nil, err
+			}
+			q.Pats = append(q.Pats, pat)
 		}
 		if err := ps.expect("::"); err != nil {
 			return nil, err
